@@ -104,7 +104,7 @@ def _run(prog, chk):
         "the statement accepts (NUL only last, lead byte followed by exactly its number of 80..bf bytes, nothing truncated).")
     chk.not_decided = ["the accepting direction for all trees", "re-serialisation of unknown elements (C11)"]
     chk.rule("C10.schema", "template table equals the reviewed schema", floor=37)
-    chk.rule("C10.flags", "every constraint flag is enforced by the template interpreter (accept / reject scenario pairs)", floor=20)
+    chk.rule("C10.flags", "every constraint flag is enforced by the template interpreter (accept / reject scenario pairs)", floor=28)
     chk.rule("C10.depth", "template graph acyclic, nesting depth and table sizes within the interpreter's fixed arrays", floor=2)
     chk.rule("C10.values", "value parsers refuse malformed integers, strings and imprints", floor=5)
 
@@ -155,6 +155,11 @@ def _run(prog, chk):
         ("MANDATORY", [(A, M, 0), (B, 0, 0)], [(A, 0), (B, 0)], [(B, 0)]),
         ("single-valued repetition", [(A, 0, 0)], [(A, 0)], [(A, 0), (A, 0)]),
         ("multi-valued repetition allowed", [(A, 0, 1)], [(A, 0), (A, 0)], None),
+        # the non-critical flag speaks about elements the parser does not know; a repeated single-valued element stays a repetition
+        ("single-valued repetition, copy flagged non-critical", [(A, 0, 0)], [(A, 1)], [(A, 0), (A, 1)]),
+        ("single-valued repetition after later elements, copy flagged non-critical", [(A, 0, 0), (B, 0, 0)], [(A, 0), (B, 1)], [(A, 0), (B, 0), (A, 1)]),
+        ("single-valued repetition of a later entry, copy flagged non-critical", [(A, 0, 0), (B, 0, 0)], [(B, 1), (A, 1)], [(B, 0), (B, 1)]),
+        ("FIRST element repeated, copy flagged non-critical", [(A, FI, 0), (B, 0, 1)], [(A, 0), (B, 0), (B, 0)], [(A, 0), (B, 0), (A, 1)]),
         ("MOST_ONE_G0", [(A, O0, 0), (B, O0, 0)], [(A, 0)], [(A, 0), (B, 0)]),
         ("MOST_ONE_G1", [(A, O1, 0), (B, O1, 0)], [(B, 0)], [(A, 0), (B, 0)]),
         ("LEAST_ONE_G0", [(A, L0, 0), (B, L0, 0), (C, 0, 0)], [(B, 0), (C, 0)], [(C, 0)]),
